@@ -359,6 +359,15 @@ func run(c *mon.Ctx) {
 		} else if err != nil || q == nil {
 			c.Fail("validate:FromBytes-188", "FromBytes rejected a valid 188-byte slice", wit{Op: "FromBytes", Before: mon.Hex(b)})
 		}
+		if n == 0 {
+			// "no bytes" in its three spellings
+			for k, e := range [][]byte{nil, {}, make([]byte, 0, 188)} {
+				if q0, err0 := packet.FromBytes(e); err0 == nil || q0 != nil {
+					c.Fail("validate:FromBytes-length-zero", fmt.Sprintf("FromBytes accepted a slice of 0 bytes (spelling %d: nil / empty / empty with capacity 188)", k), wit{Op: "FromBytes", Arg: fmt.Sprint(k)})
+				}
+				c.Eval(1)
+			}
+		}
 		// the same length cut from a larger buffer (a short read into a packet-sized or larger buffer)
 		for _, capacity := range []int{188, 189, 376, 752} {
 			if n > capacity {
